@@ -420,6 +420,15 @@ func (b *c01Base) forgeries(r *mrand.Rand) []c01Forgery {
 			s2.EContentType, s2.EContent, s2.SigningTime = issuer.OIDSecurityObject, issuer.QuickSecurityInfos(), &b.st
 			in.cardSec = issuer.BuildSignedData(r, s2)
 		})
+		// CardSecurity has its own signing time: the signer must be valid at THAT time
+		for name, t := range map[string]time.Time{"cardsecurity-signer-expired-at-its-own-signing-time": b.pki.Opts.DSNotAfter.Add(time.Second), "cardsecurity-signer-not-yet-valid-at-its-own-signing-time": b.pki.Opts.DSNotBefore.Add(-time.Second)} {
+			tt := t
+			add(name, func(in *c01Input) {
+				s2 := b.pki.SignerSpec(p.digest, false)
+				s2.EContentType, s2.EContent, s2.SigningTime = issuer.OIDSecurityObject, issuer.QuickSecurityInfos(), &tt
+				in.cardSec = issuer.BuildSignedData(r, s2)
+			})
+		}
 		add("cardsecurity-content-altered", func(in *c01Input) {
 			// other SecurityInfos under the genuine signer, with the messageDigest of the original content
 			s2 := b.pki.SignerSpec(p.digest, false)
